@@ -277,6 +277,12 @@ def text_blocks_to_pandas(
     for i in range(len(blocks)):
         parts.append([paths[i] if paths else None, is_first[i], is_last[i]])
 
+    if not blocks:
+        # every file is zero bytes long (e.g. an empty frame written without a
+        # header): there is no block to parse, the result is the empty frame
+        # that was inferred from the sample
+        return dd.from_pandas(head.iloc[:0], npartitions=1)
+
     return dd.from_map(
         partial(
             _read_csv,
